@@ -122,6 +122,14 @@ add('C10', "spec/ApiHistory.tla models the compile cache, the shared grammar obj
     "Compile-time settings are excluded from the pool (C09 / KF-C09-1).",
     "TLA+ spec ApiHistory model-checked by TLC (two designs) + state-graph histories replayed against fresh-interpreter responses", "5 C10, 3.7")
 
+add('C07', "PegSem with the model-building action (Cfg.act = model): a rule annotated name::T::Base yields Obj(T, bases, attributes = named elements or "
+    "the single attribute ast), builtin type names convert the value; TLC evaluates it on 11 typed grammars x all texts up to the bound; each case is "
+    "replayed through asmodel=True, ModelBuilderSemantics(), the generated model module used as semantics, and compile(typedefs=[module]) after the "
+    "synthesized compilation; compared on class name, declared bases in MRO order, attribute map (also against the plain AST of the same input), "
+    "children()/parent against the nodes stored in attributes, DepthFirst/BreadthFirst/PostOrder walker visit sets, and class identity for the module route.",
+    "Trusted: TLC, projections (harness/objreplay.py). Attribute names that collide with Node methods are compared for values only (children() omits them).",
+    "TLA+ spec PegSem (MkNode / ObjModel) evaluated by TLC + replay through four model-building routes", "5 C07, 3.7")
+
 import sys
 checks = [C[p] for p in props if p in C]
 na = [{"property_id": p, "reason": "check not built yet in this round (build in progress; DESIGN.md section 10 gives the order)"} for p in props if p not in C]
